@@ -193,6 +193,24 @@ fn answer(line: &str, work: &str, k: usize) -> String {
             if let Err(e) = load(&rt, &db, "t", &rows) {
                 return format!("load-failed:{}", hex(e.as_bytes()));
             }
+            // The target path already exists: (1) it holds arbitrary old bytes, longer than any
+            // export of this table; (2) a BIGGER table (the rows three times over) is exported to
+            // it first; then the table itself is exported to the SAME path.  COPY TO must replace
+            // the content: the bytes compared with the model and imported below are the file's.
+            let mut stale = Vec::new();
+            for k in 0..(200 + 40 * rows.len()) {
+                stale.extend_from_slice(format!("stale{k},\"old\"\"row\",{k}\n").as_bytes());
+            }
+            stale.extend_from_slice(b"partial,\"line");
+            std::fs::write(&path, &stale).unwrap();
+            if !rows.is_empty() {
+                let mut big = rows.clone();
+                big.extend(rows.iter().cloned());
+                big.extend(rows.iter().cloned());
+                if create(&rt, &db, "t0", &types).is_ok() && load(&rt, &db, "t0", &big).is_ok() {
+                    let _ = run_sql(&rt, &db, &format!("copy t0 to '{path}' {}", opts_sql(r.d, r.q, r.e, r.h)));
+                }
+            }
             let sql = format!("copy t to '{path}' {}", opts_sql(r.d, r.q, r.e, r.h));
             let exp = run_sql(&rt, &db, &sql);
             let file = std::fs::read(&path).ok();
